@@ -143,6 +143,67 @@ theorem const_value_distinct (m : AdtMeta) (vs : Variants) (n : B) (p : Prim) (v
   rw [leVal_leBytes _ v hv, leVal_leBytes _ v' hv'] at this
   exact h this
 
+/-! ### Field and variant names, and their order -/
+
+/-- names of the fields, in order -/
+def fieldNames : Fields → List B
+  | .nil => []
+  | .cons n _ _ r => n :: fieldNames r
+
+/-- The names part of a struct feed determines the list of names (among lists of the same length,
+    names being identifiers: no 0xff byte). -/
+theorem namesFeed_inj : ∀ (f g : Fields) (x y : B), (fieldNames f).length = (fieldNames g).length →
+    (∀ n ∈ fieldNames f, NoFF n) → (∀ n ∈ fieldNames g, NoFF n) →
+    f.namesFeed ++ x = g.namesFeed ++ y → fieldNames f = fieldNames g ∧ x = y
+  | .nil, .nil, x, y, _, _, _, h => by simpa [Fields.namesFeed, fieldNames] using h
+  | .nil, .cons _ _ _ _, _, _, hl, _, _, _ => by simp [fieldNames] at hl
+  | .cons _ _ _ _, .nil, _, _, hl, _, _, _ => by simp [fieldNames] at hl
+  | .cons n _ _ r, .cons n' _ _ r', x, y, hl, hf, hg, h => by
+    simp only [Fields.namesFeed, List.append_assoc] at h
+    have h1 := hStr_inj n n' _ _ (hf n (by simp [fieldNames])) (hg n' (by simp [fieldNames])) h
+    have ih := namesFeed_inj r r' x y (by simpa [fieldNames] using hl)
+      (fun m hm => hf m (by simp [fieldNames, hm])) (fun m hm => hg m (by simp [fieldNames, hm])) h1.2
+    exact ⟨by simp [fieldNames, h1.1, ih.1], ih.2⟩
+
+/-- **A field renamed, or two fields swapped** (any change of the list of field names that keeps
+    their number): the feeds of the two structures differ, whatever the field types. -/
+theorem field_names_distinct (m : AdtMeta) (vn vn' : B) (f g : Fields) (he : m.isEnum = false)
+    (hl : (fieldNames f).length = (fieldNames g).length)
+    (hf : ∀ n ∈ fieldNames f, NoFF n) (hg : ∀ n ∈ fieldNames g, NoFF n) (h : fieldNames f ≠ fieldNames g) :
+    (Ty.adt m (.cons vn f .nil)).typeFeed ≠ (Ty.adt m (.cons vn' g .nil)).typeFeed := by
+  intro e
+  rw [Ty.typeFeed_adt, Ty.typeFeed_adt] at e
+  simp only [adtBody, he, Bool.false_eq_true, if_false] at e
+  have e1 := List.append_cancel_left e
+  exact h (namesFeed_inj f g _ _ hl hf hg e1).1
+
+/-- append a variant list to another -/
+def vappend : Variants → Variants → Variants
+  | .nil, w => w
+  | .cons n f r, w => .cons n f (vappend r w)
+
+theorem typeFeed_vappend : ∀ (v w : Variants), (vappend v w).typeFeed = v.typeFeed ++ w.typeFeed
+  | .nil, w => by simp [vappend, Variants.typeFeed]
+  | .cons n f r, w => by simp [vappend, Variants.typeFeed, typeFeed_vappend r w]
+
+/-- **A variant renamed, or variants reordered**: at the first position where the variant names
+    differ (after any common prefix `pre` of identical variants), the feeds differ — whatever the
+    fields of the two variants and whatever follows. -/
+theorem variant_names_distinct (m : AdtMeta) (pre : Variants) (n n' : B) (f f' : Fields) (r r' : Variants)
+    (he : m.isEnum = true) (hn : NoFF n) (hn' : NoFF n') (h : n ≠ n') :
+    (Ty.adt m (vappend pre (.cons n f r))).typeFeed ≠ (Ty.adt m (vappend pre (.cons n' f' r'))).typeFeed := by
+  intro e
+  rw [Ty.typeFeed_adt, Ty.typeFeed_adt] at e
+  simp only [adtBody, he, if_true, typeFeed_vappend, Variants.typeFeed, List.append_assoc] at e
+  have e1 := List.append_cancel_left (List.append_cancel_left (List.append_cancel_left (List.append_cancel_left e)))
+  have e2 := List.append_cancel_left e1
+  exact h (hStr_inj n n' _ _ hn hn' e2).1
+
+/-- Non-vacuity: `struct S { a: u8, b: u8 }` versus `struct S { b: u8, a: u8 }`. -/
+example : fieldNames (.cons [0x61] false (.prim (.int .u8)) (.cons [0x62] false (.prim (.int .u8)) .nil)) ≠
+    fieldNames (.cons [0x62] false (.prim (.int .u8)) (.cons [0x61] false (.prim (.int .u8)) .nil)) := by
+  simp [fieldNames]
+
 /-! ### Recorded findings, as theorems about the model (replayed on the real code by the check) -/
 
 /-- the witness pair of the known collision -/
